@@ -36,6 +36,24 @@ def capture_of(f: FunctionInfo, name: str) -> tuple[str, ast.pattern] | None:
     return None
 
 
+def _merge_components(e: ast.AST | None) -> list[ast.AST]:
+    """Operands of a mapping merge in winning order ({**a, **b}, a | b, dict(a, **b)); [e] otherwise."""
+    e = unwrap(e)
+    if isinstance(e, ast.Dict) and e.keys and any(k is None for k in e.keys):
+        out: list[ast.AST] = []
+        for k, v in zip(e.keys, e.values):
+            out.extend(_merge_components(v) if k is None else [v])
+        return out
+    if isinstance(e, ast.BinOp) and isinstance(e.op, ast.BitOr):
+        return _merge_components(e.left) + _merge_components(e.right)
+    if isinstance(e, ast.Call) and is_name(e.func, "dict") and len(e.args) == 1 and any(k.arg is None for k in e.keywords):
+        out = _merge_components(e.args[0])
+        for k in e.keywords:
+            out.extend(_merge_components(k.value) if k.arg is None else [k.value])
+        return out
+    return [e] if e is not None else []
+
+
 def check(an: Analysis) -> None:
     prog = an.prog
     init = prog.fn(f"{ST}.__init__")
@@ -70,11 +88,13 @@ def check(an: Analysis) -> None:
     dvf = Deps(prog, vf)
     from ..kinds import Scenario, eval_expr
 
-    for missing in (True, False):
+    for missing, default_missing in ((True, False), (True, True), (False, None)):
 
-        def env(e: ast.AST, missing=missing):
+        def env(e: ast.AST, missing=missing, default_missing=default_missing):
             if isinstance(e, ast.Compare) and len(e.ops) == 1 and isinstance(e.ops[0], (ast.Is, ast.IsNot)):
                 ops = [e.left, e.comparators[0]]
+                if default_missing is not None and any(dotted(x) == "self.default" for x in ops) and any("MISSING" in (dotted(x) or "") and dotted(x) != "self.default" for x in ops):
+                    return default_missing if isinstance(e.ops[0], ast.Is) else (not default_missing)
                 if any(is_name(x, vp) for x in ops) and any("MISSING" in (dotted(x) or "") for x in ops):
                     return missing if isinstance(e.ops[0], ast.Is) else (not missing)
             if isinstance(e, ast.Call) and (dotted(e.func) or "").endswith(("is_missing", "not_missing")) and e.args and is_name(e.args[0], vp):
@@ -83,7 +103,7 @@ def check(an: Analysis) -> None:
 
         sc = Scenario(gv, dvf, env)
         live = [n for n in gv.nodes if n.kind == "return" and n.id in sc.reach]
-        ob.inst(vf, None, f"value {'is' if missing else 'is not'} MISSING: {len(live)} return(s)")
+        ob.inst(vf, None, f"value {'is' if missing else 'is not'} MISSING{'' if default_missing is None else (', no default' if default_missing else ', a default exists')}: {len(live)} return(s)")
         if not live:
             ob.fail(vf, None, f"validated() has no return when the value {'is' if missing else 'is not'} MISSING")
         for r in live:
@@ -101,7 +121,7 @@ def check(an: Analysis) -> None:
                     vals = sc.values_of(arg.id)
                     if len(vals) == 1:
                         arg = unwrap(vals[0])
-                ok = (dotted(arg) == "self.default") if missing else is_name(arg, vp)
+                ok = (dotted(arg) == "self.default" or (default_missing is True and is_name(arg, vp))) if missing else is_name(arg, vp)
             if not ok:
                 ob.fail(vf, r.ast, "validated() does not return self.validator(default if value is MISSING else value): " + ("a default would bypass validation" if missing else "a supplied value would be replaced or stored unvalidated"))
 
@@ -257,6 +277,12 @@ def check(an: Analysis) -> None:
         tp = next((k.value for k in c.keywords if k.arg == "type_parameters"), None)
         if tp is None or "call:typing.get_args" not in drf.of(tp):
             ob.fail(rf, c, "the value of a parametrised type alias is resolved without the arguments the alias was given: its parameters resolve to their bound / Any, so e.g. `items: frozenlist[int]` accepts ('a', 'b')")
+        else:
+            # in a mapping merge later components win: the alias' own bindings must come last, or an
+            # enclosing parameter of the same name (class Box[T]; type Many[T] = Sequence[T]; Many[int]) shadows them
+            parts = _merge_components(drf.inline(tp))
+            if len(parts) > 1 and "call:typing.get_args" not in drf.of(parts[-1]):
+                ob.fail(rf, c, "the bindings of the alias' own parameters do not win the merge with the enclosing type parameters: an enclosing parameter of the same name shadows the argument the alias was given (class Box[T] with `items: Many[int]` validates against Box's T)")
     if n_alias == 0:
         ob.missing(rf, None, "the resolution of parametrised type aliases (origin is a TypeAliasType) was not found")
 
@@ -321,6 +347,39 @@ def check(an: Analysis) -> None:
         tp = next((k.value for k in c.keywords if k.arg == "type_parameters"), None) or (c.args[1] if len(c.args) > 1 else None)
         if tp is None or "param:type_parameters" not in dsm.of(tp):
             ob.fail(smn, c, "the type parameters of a specialised State are not passed to attribute_annotations: Box[int].value validates as Any")
+
+    # ------------------------------------------------------------------ C05.16 defaults are looked up on the class (through the MRO)
+    ob = an.ob("C05.16", "K5", "the default handed to every StateAttribute is getattr(<the class type.__new__ created>, <attribute name>, MISSING): an attribute lookup through the MRO - the class body's namespace lacks the defaults inherited from base states and is almost empty for specialisations (Box[int])", ["state.structure.StateMeta.__new__"])
+    saq = prog.cls("state.structure.StateAttribute").qualname
+    sa_calls = [c for c in smn.own_nodes() if isinstance(c, ast.Call) and an.callee(smn, c) in (saq, saq + ".__init__")]
+    if not sa_calls:
+        ob.missing(smn, None, "StateMeta.__new__ builds no StateAttribute")
+    for c in sa_calls:
+        ob.inst(smn, c)
+        dflt = next((k.value for k in c.keywords if k.arg == "default"), None) or (c.args[1] if len(c.args) > 1 else None)
+        cands: list[ast.AST] = []
+        if isinstance(unwrap(dflt), ast.Name):
+            cands = [unwrap(v) for kind, v in dsm.defs(smn, unwrap(dflt).id) if kind == "value"]  # type: ignore[union-attr]
+        if not cands and dflt is not None:
+            cands = [unwrap(dflt)]
+        store = parent(c)
+        keyname = None
+        if isinstance(store, ast.Assign) and len(store.targets) == 1 and isinstance(store.targets[0], ast.Subscript) and isinstance(store.targets[0].slice, ast.Name):
+            keyname = store.targets[0].slice.id
+        looked_up = False
+        bad = dflt is None
+        for v in cands:
+            if "MISSING" in (dotted(v) or ""):
+                continue
+            ok = isinstance(v, ast.Call) and an.callee(smn, v) in ("builtins.getattr", "inspect.getattr_static") and len(v.args) >= 2 and any(o.endswith(".__new__") for o in dsm.origins(v.args[0]))
+            if ok and keyname is not None:
+                ok = is_name(v.args[1], keyname)
+            if ok and len(v.args) == 3 and "MISSING" not in (dotted(unwrap(v.args[2])) or ""):
+                ok = False
+            looked_up = looked_up or ok
+            bad = bad or not ok
+        if bad or not looked_up:
+            ob.fail(smn, c, "the default of an attribute is not looked up on the created class under the attribute's own name with MISSING as the fallback: inherited defaults (subclasses, every specialised generic state) are lost and construction without the argument raises / stores MISSING")
 
     # ------------------------------------------------------------------ C05.7 __class_getitem__ arity
     ob = an.ob("C05.7", "K5 arity", "every explicit .__class_getitem__(...) call passes exactly one positional argument (State.__class_getitem__ and typing.Generic take a single parameter; several generic arguments travel as one tuple)")
